@@ -26,13 +26,18 @@ package object
 
 // ---- trees in memory: a forest is a []*Node; a node without children is a file
 
-//@ ghost treeWF(cs []*Node) bool reads Node.Children, Node.Name
+//@ ghost treeWF(cs []*Node) bool reads Node.Children
 //@ ghost height(cs []*Node) int reads Node.Children
+//@ ghost validNames(cs []*Node) bool reads Node.Children, Node.Name
 //@ ghost uniqueTree(cs []*Node) bool reads Node.Children, Node.Name
 //@ ghost denotes(cs []*Node, p string, n *Node) bool reads Node.Children, Node.Name
 
+// treeWF: finite, acyclic, no nil node (shape only); validNames: every name is non-empty and has no '/';
+// uniqueTree: sibling names are distinct. Goit writes only trees with all three; a tree read from a damaged
+// object has the first only.
 //@ axiom [height-nonneg] forall cs []*Node {height(cs)} :: height(cs) >= 0
-//@ axiom [treeWF-elim] forall cs []*Node, k int {treeWF(cs), cs[k]} :: treeWF(cs) && 0 <= k && k < len(cs) ==> cs[k] != nil && treeWF(cs[k].Children) && height(cs[k].Children) < height(cs) && !contains(cs[k].Name, "/") && len(cs[k].Name) > 0
+//@ axiom [treeWF-elim] forall cs []*Node, k int {treeWF(cs), cs[k]} :: treeWF(cs) && 0 <= k && k < len(cs) ==> cs[k] != nil && treeWF(cs[k].Children) && height(cs[k].Children) < height(cs)
+//@ axiom [validNames-elim] forall cs []*Node, k int {validNames(cs), cs[k]} :: validNames(cs) && 0 <= k && k < len(cs) ==> validNames(cs[k].Children) && !contains(cs[k].Name, "/") && len(cs[k].Name) > 0
 //@ axiom [uniqueTree-elim] forall cs []*Node, i int, j int {uniqueTree(cs), cs[i], cs[j]} :: uniqueTree(cs) && 0 <= i && i < len(cs) && 0 <= j && j < len(cs) && i != j ==> cs[i].Name != cs[j].Name
 //@ axiom [uniqueTree-sub] forall cs []*Node, k int {uniqueTree(cs), cs[k]} :: uniqueTree(cs) && 0 <= k && k < len(cs) ==> uniqueTree(cs[k].Children)
 //@ axiom [denotes-def] forall cs []*Node, p string, n *Node {denotes(cs, p, n)} :: denotes(cs, p, n) <==> (exists k int :: 0 <= k && k < len(cs) && cs[k].Name == splitHead(p, "/") && ((!contains(p, "/") && n == cs[k]) || (contains(p, "/") && len(cs[k].Children) > 0 && denotes(cs[k].Children, splitTail(p, "/"), n))))
@@ -119,5 +124,26 @@ package object
 //@   modifies $rdpos, $screst, $sctok
 //@   requires [obj] o != nil
 //@   ensures [result] {C02,C12,C14,C19} err == nil ==> c != nil && fresh(c) && c.Object == o
+//@   ensures [ids] {C14,C19} err == nil ==> len(c.Tree) >= 20 && (forall i int :: 0 <= i && i < len(c.Parents) ==> len(c.Parents[i]) >= 20)
+//@   loop 0:
+//@     invariant commit != nil && fresh(commit) && commit.Object == o
+//@     invariant len(commit.Tree) == 0 || len(commit.Tree) >= 20
+//@     invariant forall i int :: 0 <= i && i < len(commit.Parents) ==> len(commit.Parents[i]) >= 20
+//@   loop 1:
+//@     invariant commit != nil && fresh(commit) && commit.Object == o
+//@     invariant len(commit.Tree) == 0 || len(commit.Tree) >= 20
+//@     invariant forall i int :: 0 <= i && i < len(commit.Parents) ==> len(commit.Parents[i]) >= 20
+
+//@ func NewSign
+//@   returns s
+//@   ensures [fields] {C02,C12} s != nil && fresh(s) && s.Name == name && s.Email == email
+
+// NewTree: the shape clause is assumed (walkTree builds the forest bottom-up from finitely many bytes)
+//@ func NewTree
+//@   returns t, err
+//@   trusted
+//@   modifies $rdpos, $hashdata
+//@   ensures [shape] err == nil ==> t != nil && fresh(t) && treeWF(t.Children)
+//@   ensures [nil] err != nil ==> t == nil
 //@   ensures [nil] err != nil ==> c == nil
 //@   ensures [kind] {C19} o.Type != CommitObject ==> err != nil
